@@ -57,6 +57,9 @@ MUTATIONS = [
     ("mutant_opcode_mask.diff: OPCODE_MASK = 0b1111 with a shift constant", None, 'mutant_opcode_mask.diff', None,
      'changed', 'opcodeMask'),
     ("mx.rs parse: body wrapped in a helper closure, same behaviour", R + 'mx.rs', MX_PARSE, MX_PARSE_CLOSURE, 'untied:parse:MX'),
+    ("a.rs parse: guard of 3 bytes before a 4-byte read", R + 'a.rs', "if *position + 4 > data.len() {", "if *position + 3 > data.len() {", 'changed', 'parseGuards_model'),
+    ("soa.rs parse: guard of 16 bytes before five 32-bit integers", R + 'soa.rs', "if *position + 20 > data.len() {", "if *position + 16 > data.len() {", 'changed', 'parseGuards_model'),
+    ("rrsig.rs parse: guard written the other way round, same value", R + 'rrsig.rs', "if *position + 18 > data.len() {", "if data.len() < *position + 18 {", 'same'),
     ("mx.rs parse: name read before the preference", R + 'mx.rs',
      """        let preference = u16::from_be_bytes(data[*position..*position + 2].try_into()?);
         *position += 2;
@@ -221,7 +224,7 @@ def run_translator(repo, out):
 
 # ---------------------------------------------------------------- the generated file, item by item
 
-SCHEMA_TABLES = {'parse': ('parseSchema', 'parseFields', 'untiedParse'), 'write': ('writeSchema', 'writeFields', 'untiedWrite'),
+SCHEMA_TABLES = {'parse': ('parseSchema', 'parseFields', 'parseGuards', 'untiedParse'), 'write': ('writeSchema', 'writeFields', 'untiedWrite'),
                  'compressed': ('compressedSchema', 'untiedCompressed')}
 DEFAULT_OF = {'classArms': 'classDefault', 'opcodeArms': 'opcodeDefault', 'rcodeArms': 'rcodeDefault'}
 
